@@ -61,8 +61,13 @@ def qsets(q):
     return {k: set(str(x) for x in v) for k, v in (q or {}).items()}
 
 
-def expected_rows(o, shift=0, chunk_mode=False):
-    """list of expected rows (type, start0, end, strand, phase, Name, attrs-dict-of-sets, id_kind) in unsorted emission order"""
+def expected_rows(o, shift=0, chunk_mode=False, mirror_end=None):
+    """list of expected rows (type, start0, end, strand, phase, Name, attrs-dict-of-sets, id_kind) in unsorted emission order.
+    mirror_end: chunk-relative export from a chunk that is the reverse complement of its window [cs, mirror_end): a block
+    [s, e) reads [mirror_end - e, mirror_end - s) in chunk coordinates and every strand is the opposite one"""
+    if mirror_end is not None:
+        flip = {"+": "-", "-": "+", ".": "."}
+        return [(t, mirror_end - e, mirror_end - s, flip[st_], *rest) for t, s, e, st_, *rest in expected_rows(o, 0, chunk_mode)]
     rows = []
     members = [("gene", g) for g in o.get("genes", [])] + [("fc", c) for c in o.get("feature_collections", [])]
     for kind, m in members:
@@ -109,7 +114,7 @@ def export(spec, raise_reserved=True, ctx=None):
     o = spec["obj"]
     g = spec["genome"]
     chunk = spec.get("chunk")
-    parent = chunk_parent(g, chunk[0], chunk[1]) if chunk else chrom_parent(g)
+    parent = chunk_parent(g, chunk[0], chunk[1], strand=spec.get("chunk_strand", "+")) if chunk else chrom_parent(g)
     coll = mkcollection(o, parent)
     buf = io.StringIO()
     with warnings.catch_warnings():
@@ -189,13 +194,17 @@ def check_syntax(spec, ctx):
     chunk = spec.get("chunk")
     shift = chunk[0] if (spec["chunk_mode"] and chunk) else 0
     seq = g[chunk[0]:chunk[1]] if chunk else g
+    mirrored = bool(chunk) and spec.get("chunk_strand", "+") == "-"
+    if mirrored:
+        seq = rm.revcomp(seq)
+        ctx.label("minus_strand_chunk")
     if spec["fasta"]:
         ctx.eq("fasta_section", doc["fasta"], {"chr1": seq})
         ctx.true("sequence_region_directive", "##sequence-region chr1 1 %d" % len(seq) in doc["directives"], doc["directives"])
     else:
         ctx.eq("no_fasta_section", doc["fasta"], {})
     rows = doc["rows"]
-    exp = expected_rows(o, shift, chunk_mode=bool(spec["chunk_mode"] and chunk))
+    exp = expected_rows(o, shift, chunk_mode=bool(spec["chunk_mode"] and chunk), mirror_end=chunk[1] if (mirrored and spec["chunk_mode"]) else None)
     wild = {(t, s_, e_, st_) for t, s_, e_, st_, ph, *_ in exp if ph == "*"}
     # rows are matched by coordinates: another CDS with the very same coordinates as a wildcard row cannot be told apart from
     # it in the file, so its phase is not compared either
@@ -495,6 +504,7 @@ def strat_syntax(draw, tier="quick"):
     elif r <= 2:
         sp["chunk"] = [draw(st.integers(0, lo)), draw(st.integers(hi, n))]
         sp["chunk_mode"] = draw(st.sampled_from([True, True, False]))
+        sp["chunk_strand"] = draw(st.sampled_from(["+", "+", "-"]))
     else:
         sp["chunk_mode"] = draw(st.integers(0, 9)) == 0
     return sp
